@@ -430,9 +430,10 @@ func getOffer(header []byte, isAccepted func(spec, offer string, specParams head
 				}
 			} else {
 				params, _ = headerParamPool.Get().(headerParams) //nolint:errcheck // only contains headerParams
-				for k := range params {
-					delete(params, k)
-				}
+				// the keys of a pooled map are views of an earlier request's header buffer, which has been
+				// overwritten since: deleting them one by one would look them up under their new content
+				// and leave them in the map
+				clear(params)
 				fasthttp.VisitHeaderParams(accept[i:], func(key, value []byte) bool {
 					if len(key) == 1 && key[0] == 'q' {
 						if q, err := fasthttp.ParseUfloat(value); err == nil {
